@@ -236,6 +236,16 @@ impl FsOcflStore {
             return Err(not_found(object_id, None));
         }
 
+        // Neither is anything inside of another object
+        let mut ancestor = self.storage_root.clone();
+        let mut components = Path::new(object_root).components().peekable();
+        while let Some(component) = components.next() {
+            ancestor.push(component);
+            if components.peek().is_some() && ancestor.is_dir() && is_object_root(&ancestor)? {
+                return Err(not_found(object_id, None));
+            }
+        }
+
         let object_root = self.storage_root.join(object_root);
 
         // Something that is not an object, for example a directory that other objects are stored
